@@ -433,6 +433,24 @@ func c11EvalLib(cs c11Case) (out c10Out) {
 		out.count("hdrplot_reports_lib", 1)
 		c11CheckHDR(&out, &cs, "lib-hdrplot", "", arrival, sorted, buf.String(), "")
 	}
+	if periodic {
+		// the HDR reporter asks the estimator itself: a report taken while the summary fields are
+		// stale (closed early, more results since; or never closed) shows the same rows
+		var m2 vegeta.Metrics
+		for i := range rs {
+			m2.Add(&rs[i])
+			if i == len(rs)/3 {
+				m2.Close()
+			}
+		}
+		var buf2 bytes.Buffer
+		if err := vegeta.NewHDRHistogramPlotReporter(&m2).Report(&buf2); err != nil {
+			out.violate("C11/hdrplot-shape/"+cs.dataClass(), "hdrplot reporter failed on metrics closed early: "+err.Error(), c11Witness{Case: cs, Level: "lib-hdrplot-stale-summary", Clause: "hdrplot-shape", Note: err.Error()})
+		} else {
+			out.count("hdrplot_reports_lib_with_a_stale_summary", 1)
+			c11CheckHDR(&out, &cs, "lib-hdrplot-stale-summary", "", arrival, sorted, buf2.String(), "")
+		}
+	}
 	return out
 }
 
